@@ -146,6 +146,25 @@ fn battery_event(e: &Event) {
     let _ = e.copy(&mut buf);
     let _ = e.copy(&mut buf[..0]);
     let _ = e.is_expired();
+    // hex writers into exact, short and empty buffers (errors, never panics), and the allocating forms
+    {
+        let mut b64 = [0u8; 64];
+        let mut b128 = [0u8; 128];
+        let _ = e.id().write_hex(&mut b64);
+        let _ = e.id().write_hex(&mut b64[..63]);
+        let _ = e.id().write_hex(&mut b64[..0]);
+        let _ = e.pubkey().write_hex(&mut b64);
+        let _ = e.pubkey().write_hex(&mut b64[..1]);
+        let _ = e.sig().write_hex(&mut b128);
+        let _ = e.sig().write_hex(&mut b128[..127]);
+        let h = e.id().as_hex_string();
+        if let Ok(back) = pocket_types::Id::read_hex(h.as_bytes()) {
+            assert!(back.as_slice() == e.id().as_slice(), "Id hex writer and reader disagree");
+        } else {
+            panic!("Id::read_hex rejects Id::as_hex_string output");
+        }
+        let _ = e.pubkey().as_hex_string();
+    }
     if !under_miri() {
         let _ = e.verify();
     }
